@@ -157,6 +157,11 @@ func (c *Check) routerRoles2(id string) *RouterRoles2 {
 		if cal != nil && cal.Pkg == r.Close.Pkg && cal.Signature.Results().Len() == 1 && cal.Signature.Results().At(0).Type().String() == "bool" && cal != r.IsClosed {
 			r.WaitFn = cal
 		}
+		// the same helper answering with an error (nil = finished in time) instead of a flag
+		if cal != nil && cal.Pkg == r.Close.Pkg && r.WaitFn == nil && cal.Signature.Results().Len() == 1 && IsErrorType(cal.Signature.Results().At(0).Type()) &&
+			len(CallsTo(cal, ModulePath+"/pubsub/sync.WaitGroupTimeout")) > 0 {
+			r.WaitFn = cal
+		}
 	}
 	// close watcher: the other `go` in the run loop
 	AllInstrs(r.RunLoop, func(in ssa.Instruction) {
@@ -370,4 +375,15 @@ func loopDirection(idx, s ssa.Value) (int, bool) {
 		return +1, okInit && okTest
 	}
 	return 0, false
+}
+
+// waitVerdictEdges returns, for the calls of the wait helper in fn, the edges
+// on which the wait timed out and those on which it did not — from a test of
+// the helper's bool result, or of its error result against nil.
+func (r *RouterRoles2) waitVerdictEdges(fn *ssa.Function, waits []ssa.CallInstruction) (timedOut, inTime []Edge) {
+	if r.WaitFn != nil && IsErrorType(r.WaitFn.Signature.Results().At(0).Type()) {
+		inTime, timedOut = NilEdges(fn, ResultOfAny(waits, 0))
+		return
+	}
+	return BoolEdges(fn, ResultOfAny(waits, 0))
 }
